@@ -96,9 +96,9 @@ def load_known():
     return known, data.get("fixed", [])
 
 
-def run_property(prop, rules, repo, tier, seed, explanation, assumptions, trusted_base, extra=None, t0=None):
-    """Run all rules of a property; write evidence; print report; return exit status."""
-    t0 = t0 or time.time()
+def evaluate(prop, rules, repo, tier):
+    """Run the rules; return the list of RuleResult (raises AnalysisError when a
+    rule's instance count fell below its confirmed minimum)."""
     ctx = Ctx(repo, prop, tier)
     results: list[RuleResult] = []
     for fn in rules:
@@ -112,6 +112,13 @@ def run_property(prop, rules, repo, tier, seed, explanation, assumptions, truste
                     f"confirmed by hand - its anchors have moved; refusing to pass vacuously"
                 )
             results.append(r)
+    return results
+
+
+def run_property(prop, rules, repo, tier, seed, explanation, assumptions, trusted_base, extra=None, t0=None):
+    """Run all rules of a property; write evidence; print report; return exit status."""
+    t0 = t0 or time.time()
+    results = evaluate(prop, rules, repo, tier)
 
     known, _fixed = load_known()
     all_findings = [f for r in results for f in r.findings]
